@@ -232,8 +232,9 @@ fn make_ruleset(tree: &RE, world: &Arc<Mutex<World>>) -> Result<RuleSet, String>
         };
         (r, 0)
     });
+    let expr = tree.try_to_expr().map_err(|p| format!("constructor panicked: {p}"))?;
     ruleset()
-        .with_rule(Rule::new("r", BTreeMap::new(), tree.to_expr()))
+        .with_rule(Rule::new("r", BTreeMap::new(), expr))
         .and_then(|b| b.with_function(probe("p", false, &handler)))
         // the second probe goes through the boxed registration entry point
         .and_then(|b| b.with_functions(vec![Box::new(probe("q", false, &handler)) as Box<dyn UserFunction + Send + Sync + 'static>]))
